@@ -214,6 +214,14 @@ struct Task {
 }
 
 fn observe(pool: &Pool<Mgr>, sh: &Sh) -> (Value, Value) {
+    // on a helper thread with a deadline (see unmanaged.rs): a parked thread holding the slots lock makes observation impossible
+    let (tx, rx) = std::sync::mpsc::channel();
+    let p2 = pool.clone(); let sh2 = sh.clone();
+    std::thread::spawn(move || { let _ = tx.send(observe_inner(&p2, &sh2)); });
+    rx.recv_timeout(Duration::from_millis(1500)).unwrap_or((Value::Null, Value::Null))
+}
+
+fn observe_inner(pool: &Pool<Mgr>, sh: &Sh) -> (Value, Value) {
     let s = pool.status();
     let sn = pool.verif_snapshot();
     let mut idle = vec![];
@@ -336,6 +344,7 @@ fn run_managed(trace: &Value) {
         println!("{}", json!({"i": -1, "res": ["built"], "events": build_events}));
         let mut tasks: HashMap<String, Task> = HashMap::new();
         for (i, step) in trace["actions"].as_array().unwrap().iter().enumerate() {
+            progress(i);
             let a = &step["act"];
             let kind = a[0].as_str().unwrap();
             {
@@ -419,6 +428,7 @@ fn run_managed_threads(trace: &Value) {
         workers.insert(n.clone(), Worker { cmd: cmd_tx, resume: res_tx, report: rep_rx, busy: false });
     }
     for (i, step) in trace["actions"].as_array().unwrap().iter().enumerate() {
+        progress(i);
         let tname = step["thread"].as_str().unwrap();
         let w = workers.get_mut(tname).unwrap();
         { let mut g = sh.lock().unwrap(); let mut extra: VecDeque<Value> = step["env"].as_array().unwrap().iter().filter(|e| e[0] != "timer" && e[0] != "cbskip").cloned().collect(); g.script.append(&mut extra); }
@@ -446,7 +456,31 @@ fn run_managed_threads(trace: &Value) {
     std::process::exit(0);
 }
 
+/// watchdog: a step that does not come back within 8 s (a thread deadlocked on a mutex it already holds, or every thread waits
+/// for a lock) is reported as ["deadlock"] and ends the replay - the engine predicts exactly that for such traces
+pub static CUR_STEP: std::sync::atomic::AtomicI64 = std::sync::atomic::AtomicI64::new(-1);
+pub static STEP_SEQ: std::sync::atomic::AtomicU64 = std::sync::atomic::AtomicU64::new(0);
+pub fn progress(i: usize) {
+    CUR_STEP.store(i as i64, std::sync::atomic::Ordering::SeqCst);
+    STEP_SEQ.fetch_add(1, std::sync::atomic::Ordering::SeqCst);
+}
+fn spawn_watchdog() {
+    std::thread::spawn(|| {
+        let mut last = STEP_SEQ.load(std::sync::atomic::Ordering::SeqCst); let mut since = std::time::Instant::now();
+        loop {
+            std::thread::sleep(Duration::from_millis(200));
+            let cur = STEP_SEQ.load(std::sync::atomic::Ordering::SeqCst);
+            if cur != last { last = cur; since = std::time::Instant::now(); continue; }
+            if CUR_STEP.load(std::sync::atomic::Ordering::SeqCst) >= 0 && since.elapsed() > Duration::from_secs(8) {
+                println!("{}", json!({"i": CUR_STEP.load(std::sync::atomic::Ordering::SeqCst), "res": ["deadlock"], "events": [], "hung": true}));
+                std::process::exit(0);
+            }
+        }
+    });
+}
+
 fn main() {
+    spawn_watchdog();
     let path = std::env::args().nth(1).expect("usage: dp-replay <trace.json>");
     let trace: Value = serde_json::from_str(&std::fs::read_to_string(&path).unwrap()).unwrap();
     if std::env::var("DP_REPLAY_DEBUG").is_err() { std::panic::set_hook(Box::new(|_| {})); }
